@@ -59,6 +59,15 @@ def auditLine (st : AuRun) (lineNo : Nat) (line : String) : Except String (AuRun
           let nf := (outs.filter (·.startsWith "PROPFAIL")).length
           let key := s!"audit:h={strClass rec.principal.hostname}:s={strClass rec.secret}:u={if rec.principal.user.isEmpty then 0 else 1}:t={min rec.principal.tags.length 2}:v={if rec.version == 0 then 0 else 1}"
           .ok ({ st with cases := st.cases + 1, fails := st.fails + nf, diverges := st.diverges + (outs.length - nf), cover := bump st.cover key }, outs)
+  | "afterclose" :: rest =>
+    -- the audit log has been closed (shutdown) and a request still arrives: fail closed - the
+    -- call is refused, the database file and the log stay as they were
+    let fs := fields rest
+    let get := fun k => (lookup fs k).getD ""
+    let ok := get "res" == "err" && get "dbsame" == "1" && get "logsame" == "1"
+    let outs := if ok then [] else
+      [s!"PROPFAIL C06 fail_closed line={lineNo} after the audit log was closed ({get "closes"} Close call(s)) op={get "op"} res={get "res"} dbsame={get "dbsame"} logsame={get "logsame"}: a call must be refused when its record cannot be written"]
+    .ok ({ st with cases := st.cases + 1, fails := st.fails + outs.length, cover := bump st.cover s!"afterclose:{get "op"}:{get "res"}" }, outs)
   | _ => if line.startsWith "#" || line.isEmpty then .ok (st, []) else .error s!"line {lineNo}: unknown line kind"
 
 end Setec.Driver
